@@ -331,6 +331,7 @@ func c32(c *core.Ctx) {
 					continue
 				}
 				lenDerived := false
+				monotone := false
 				src := ""
 				var walk func(v ssa.Value, d int)
 				seen := map[ssa.Value]bool{}
@@ -352,6 +353,26 @@ func c32(c *core.Ctx) {
 							src = "len(" + ssax.Path(x.Call.Args[0]) + ")"
 						} else if cal := ssax.Callee(x); cal != nil {
 							src = cal.Name() + "()"
+							if atomicAdd(x) {
+								monotone = true
+							} else if h := x.Call.StaticCallee(); h != nil && len(h.Blocks) > 0 {
+								// an id generator: its result derives from an atomic add or from a counter field
+								for _, b := range h.Blocks {
+									for _, in := range b.Instrs {
+										if hc, ok := in.(*ssa.Call); ok && atomicAdd(hc) {
+											monotone = true
+										}
+									}
+								}
+								for _, r := range ssax.Returns(h) {
+									if len(r.Results) > 0 {
+										if ld := loadedField(ssax.RetVal(r, 0)); ld.f != nil && monotoneCounter(c, ld.f) {
+											monotone = true
+											src += " → field " + ssax.FieldString(ld.f)
+										}
+									}
+								}
+							}
 						}
 					case *ssa.Phi:
 						for _, e := range x.Edges {
@@ -360,6 +381,9 @@ func c32(c *core.Ctx) {
 					case *ssa.UnOp:
 						if ld := loadedField(x); ld.f != nil {
 							src = "field " + ssax.FieldString(ld.f)
+							if monotoneCounter(c, ld.f) {
+								monotone = true
+							}
 							// a field copied from a fresh id: follow stores in this function
 							for _, a := range ssax.FieldAccesses(f, ld.f) {
 								if st, ok := a.Use.(*ssa.Store); ok && a.Kind == ssax.Write {
@@ -379,7 +403,7 @@ func c32(c *core.Ctx) {
 				}
 				walk(s.Key, 0)
 				bad := lenDerived && hasDelete
-				c.Ob("C32.fresh", fname(f)+"·insert into "+t.name, pos(c, s.Instr), !bad, "key source: "+src+"; derived from len() of a table that has delete sites: "+boolStr(bad))
+				c.Ob("C32.fresh", fname(f)+"·insert into "+t.name, pos(c, s.Instr), !bad && monotone, "key source: "+src+"; derived from len() of a table that has delete sites: "+boolStr(bad)+"; from a counter that only ever grows (a field every store to which is field+k, or an atomic add): "+boolStr(monotone)+" — an id that can be handed out again while stale deletes by bare id are pending kills another session's object")
 			}
 		}
 	}
@@ -591,4 +615,35 @@ func statusName(v ssa.Value) string {
 		}
 	}
 	return ""
+}
+
+func atomicAdd(call *ssa.Call) bool {
+	cal := ssax.Callee(call)
+	return cal != nil && cal.Pkg() != nil && cal.Pkg().Path() == "sync/atomic" && strings.HasPrefix(cal.Name(), "Add")
+}
+
+// monotoneCounter: every store to field fl in package server writes fl+k (k > 0) or a constant (the wrap reset).
+func monotoneCounter(c *core.Ctx, fl *types.Var) bool {
+	n := 0
+	for _, f := range libFns(c, "server") {
+		for _, a := range ssax.FieldAccesses(f, fl) {
+			st, ok := a.Use.(*ssa.Store)
+			if !ok || a.Kind != ssax.Write {
+				continue
+			}
+			n++
+			if _, isK := ssax.ConstInt(st.Val); isK {
+				continue
+			}
+			bo, isAdd := ssax.Strip(st.Val).(*ssa.BinOp)
+			if !isAdd || bo.Op != token.ADD {
+				return false
+			}
+			k, isK := ssax.ConstInt(bo.Y)
+			if !isK || k <= 0 || loadedField(bo.X).f != fl {
+				return false
+			}
+		}
+	}
+	return n > 0
 }
